@@ -22,7 +22,7 @@ def typed(draw, n, kinds=None, width=None):
     kind = draw(st.sampled_from(kinds or KINDS))
     sp = None
     if kind == "special":
-        sp = draw(st.sampled_from(["zeros-ones", "all-equal", "nonpositive-with-zero", "big-int", "minus-one", "zero-first"]))
+        sp = draw(st.sampled_from(["zeros-ones", "all-equal", "nonpositive-with-zero", "minus-one", "zero-first"]))
         if sp == "zeros-ones":
             v = [draw(st.sampled_from([0, 1, -1, 1, 0, 2])) for _ in range(n)]
         elif sp == "all-equal":
@@ -41,7 +41,7 @@ def typed(draw, n, kinds=None, width=None):
     else:
         v = [draw(st.integers(-5, 5)) for _ in range(n)]
     im = [draw(st.integers(-3, 3)) for _ in range(n)] if "complex" in kind else None
-    return {"t": kind, "v": v, "im": im, "w": width or draw(st.sampled_from([2, 3])), "sp": sp}
+    return {"t": kind, "v": v, "im": im, "w": width or 2, "sp": sp}
 
 
 def _num(kind, x, y=None):
